@@ -241,7 +241,7 @@ impl Entropy for Exponential {
 
 impl KlDivergence for Exponential {
     fn kl(&self, other: &Self) -> f64 {
-        self.rate.ln() - other.rate.ln() + self.rate / other.rate - 1.0
+        self.rate.ln() - other.rate.ln() + other.rate / self.rate - 1.0
     }
 }
 
